@@ -3,6 +3,7 @@ package checks
 import (
 	"errors"
 	"fmt"
+	"regexp"
 	"sync"
 
 	"github.com/indexsupply/shovel/shovel"
@@ -65,6 +66,8 @@ func nextChainID() uint64 {
 // pipeABI is the ABI sub-domain used by the pipeline checks (C09 owns the rest).
 var pipeABI = gen.ABIOpts{MaxDepth: 2, MaxLeaves: 40, DynLen: 3, MaxInputs: 4, Ks: []int{1, 2, 3, 5, 9, 10, 12}, MaxIndexed: 3}
 
+var c01IDRe = regexp.MustCompile(`"id":("[^"]*"|[0-9]+|null)`)
+
 type faultPlan struct {
 	mu       sync.Mutex
 	r        *vk.RNG
@@ -78,12 +81,60 @@ type faultPlan struct {
 	// that span more than one block (the usual "range too large / too many results" refusal of providers)
 	logsRefusal bool
 	refusals    int
+	// limit > 0: a provider with limits — eth_getLogs over more than `limit` blocks is refused with -32005 ("query
+	// returned more than 10000 results"), smaller ranges sometimes answer with a null result; active until disabled
+	limit int
 }
 
 func (fp *faultPlan) rpcHook(info *simnode.ReqInfo) simnode.Action {
 	fp.mu.Lock()
 	defer fp.mu.Unlock()
 	act := simnode.Action{ElemErr: -1}
+	if fp.limit > 0 {
+		if fp.disabled || info.Poller {
+			return act
+		}
+		type edit struct {
+			i    int
+			null bool
+		}
+		var edits []edit
+		for i, cl := range info.Calls {
+			if cl.Method != "eth_getLogs" || cl.Filter == nil {
+				continue
+			}
+			switch n := int(cl.Filter.To-cl.Filter.From) + 1; {
+			case n > fp.limit:
+				edits = append(edits, edit{i, false})
+				fp.kinds["rpc:logs-range-refused"] = true
+			case fp.r.Chance(1, 4):
+				edits = append(edits, edit{i, true})
+				fp.kinds["rpc:logs-null-result"] = true
+			}
+		}
+		if len(edits) > 0 {
+			fp.refusals++
+			act.Rewrite = func(elems []string) []string {
+				out := append([]string(nil), elems...)
+				for _, e := range edits {
+					if e.i >= len(out) {
+						continue
+					}
+					id := "null"
+					if m := c01IDRe.FindStringSubmatch(out[e.i]); m != nil {
+						id = m[1]
+					}
+					if e.null {
+						out[e.i] = `{"jsonrpc":"2.0","id":` + id + `,"result":null}`
+					} else {
+						out[e.i] = `{"jsonrpc":"2.0","id":` + id + `,"error":{"code":-32005,"message":"query returned more than 10000 results"}}`
+					}
+				}
+				return out
+			}
+		}
+		return act
+	}
 	if fp.logsRefusal {
 		if fp.disabled || info.Poller || fp.rpcLeft == 0 {
 			return act
@@ -197,10 +248,17 @@ func c01Run(c *vk.Case) {
 		if c.Index%8 == 3 && d.Mode() == model.ModeLog {
 			fp.logsRefusal, fp.rpcLeft = true, r.Range(1, 3)
 		}
+		if c.Index%8 == 7 && d.Mode() == model.ModeLog {
+			fp.limit, fp.rpcLeft, fp.sqlLeft = r.Range(1, 3), 0, 0
+			c.Obs("provider_limit_cases", 1)
+		}
 	}
 	node.SetHook(fp.rpcHook)
 	env.PG.SetFaultHook(fp.sqlHook)
 	nfaults := fp.rpcLeft + fp.sqlLeft
+	if fp.limit > 0 {
+		nfaults += 12 // the steps taken while the provider's limits are in force
+	}
 
 	growLeft := r.Intn(4)
 	growths := 0
@@ -228,7 +286,7 @@ func c01Run(c *vk.Case) {
 		quiet := growLeft == 0
 		if quiet {
 			fp.mu.Lock()
-			if fp.rpcLeft == 0 && fp.sqlLeft == 0 || steps > budget()/2 {
+			if fp.rpcLeft == 0 && fp.sqlLeft == 0 && (fp.limit == 0 || steps >= 10) || steps > budget()/2 {
 				fp.disabled = true
 			}
 			dis := fp.disabled
@@ -274,6 +332,10 @@ func c01Run(c *vk.Case) {
 		c.Seen("fault_sites", k)
 	}
 	injected := nfaults - fp.rpcLeft - fp.sqlLeft
+	if fp.limit > 0 {
+		injected = fp.refusals
+		c.Obs("provider_limit_answers", int64(fp.refusals))
+	}
 	fp.mu.Unlock()
 	c.Obs("faults_injected", int64(injected))
 	if len(c.Res.Violations) == 0 && pm.hasPos {
